@@ -6,7 +6,10 @@
    [serve], [run] are the model of the Go code over those tables (C20/Model.v);
    [spec_parse], [spec_name], [spec_names_level], [accept_list] are the hand-written
    specification.  Levels are integers; [valid_level l] is -1 <= l <= 5 (debug..fatal).
-   A text operation returns (new value of the target, ok). *)
+   A text operation returns (new value of the target, ok).
+   [world], [sh_step], [sh_final], [snapshot] model AtomicLevel as a handle on a shared cell (see the
+   section "one level, many holders" below); [spec_update], [spec_sh_step], [last_accepted] are the
+   specification's side of it. *)
 From Coq Require Import List ZArith Bool.
 From Coq.Strings Require Import Byte.
 Import ListNotations.
@@ -132,6 +135,68 @@ Theorem C20_http_unchanged_without_named_put : forall init rs,
 Proof. exact (history_unchanged_thm G G_checked). Qed.
 Print Assumptions C20_http_unchanged_without_named_put.
 
+(* ---- one level, many holders ----
+   An AtomicLevel is a handle on a cell (level.go: struct{ l *atomic.Int32 }); cores, loggers, the
+   http mux, zap.Config.Level and plain variables hold COPIES of the handle.  A [world] is a heap of
+   cells plus the list of holders (kind, address); [sh_step G] is the model of one operation issued
+   through one holder (copy the handle, NewAtomicLevelAt, UnmarshalText -- directly or through
+   flag.TextVar / encoding/json / yaml.v3 into the variable or a live Config --, SetLevel, ServeHTTP);
+   [spec_update o] = the holder the operation addresses and the level it names, if it names one
+   (valid level text, SetLevel, PUT naming a valid level); [level_seen w h] = the level holder h's
+   handle gives access to; [wf_world] = every handle points into the heap (true of [init_world]). *)
+
+(* no operation -- in particular no text decoded into a variable that is already shared --
+   re-points, replaces or drops the handle of any holder *)
+Theorem C20_shared_handles_kept : forall w ops h x, nth_error (w_holders w) h = Some x ->
+  nth_error (w_holders (sh_final G w ops)) h = Some x.
+Proof. exact (shared_handles_kept_thm G G_checked). Qed.
+Print Assumptions C20_shared_handles_kept.
+
+(* an accepted update issued through holder h is in force for EVERY holder of the same level
+   (the variable itself, copies taken before, the logger, the mux, the Config), and for no other *)
+Theorem C20_shared_update : forall w o h l a, wf_world w ->
+  spec_update o = Some (h, l) -> handle_of w h = Some a ->
+  forall j aj, handle_of w j = Some aj ->
+    level_seen (fst (sh_step G w o)) j = Some (if Nat.eqb aj a then l else cell_load (w_cells w) aj).
+Proof. exact (shared_update_thm G G_checked). Qed.
+Print Assumptions C20_shared_update.
+
+(* anything else (rejected text, a request that names no valid level, a copy, an unrelated new
+   AtomicLevel) changes the level seen through no holder; rejected text reports an error and leaves
+   the whole world untouched *)
+Theorem C20_shared_rejected : forall w o, wf_world w -> spec_update o = None ->
+  (forall j aj, handle_of w j = Some aj ->
+     level_seen (fst (sh_step G w o)) j = Some (cell_load (w_cells w) aj)) /\
+  (forall h t, o = SText h t -> handle_of w h <> None -> sh_step G w o = (w, of_bool false)).
+Proof. exact (shared_rejected_thm G G_checked). Qed.
+Print Assumptions C20_shared_rejected.
+
+(* after any history every holder still is what it was and sees the level of the last accepted
+   update addressed to ANY holder of its level, else the level it started with *)
+Theorem C20_shared_history : forall w ops j k a, wf_world w ->
+  nth_error (w_holders w) j = Some (k, a) ->
+  nth_error (w_holders (sh_final G w ops)) j = Some (k, a) /\
+  level_seen (sh_final G w ops) j = Some (last_accepted w ops a (cell_load (w_cells w) a)).
+Proof. exact (shared_history_thm G G_checked). Qed.
+Print Assumptions C20_shared_history.
+
+(* all holders of one level agree after every history, whichever holder each update went through *)
+Theorem C20_shared_agree : forall w ops i j a, wf_world w ->
+  handle_of w i = Some a -> handle_of w j = Some a ->
+  level_seen (sh_final G w ops) i = level_seen (sh_final G w ops) j /\
+  handle_of (sh_final G w ops) i = handle_of (sh_final G w ops) j.
+Proof. exact (shared_agree_thm G G_checked). Qed.
+Print Assumptions C20_shared_agree.
+
+(* what each holder REPORTS is that level in its own form: Level() for a variable or a Config,
+   (levels let through, Logger.Level()) for a logger, 200 + {"level":"<name>"} for GET on a mux;
+   and the model's step is the oracle's state machine, with the result the oracle expects *)
+Theorem C20_shared_reports : forall w o,
+  snapshot G w = spec_snapshot w /\
+  fst (sh_step G w o) = spec_sh_step w o /\ spec_res w o (snd (sh_step G w o)) = true.
+Proof. exact (fun w o => conj (snapshot_spec G G_checked w) (sh_step_spec G G_checked w o)). Qed.
+Print Assumptions C20_shared_reports.
+
 (* documentation of the behaviour before the fix (zapcore.Level.UnmarshalText retried with
    bytes.ToLower): for ANY function that maps the witness U+0130 "nfo" to "info" -- which
    Go's bytes.ToLower does -- the original code accepts a text the specification rejects *)
@@ -205,3 +270,37 @@ Example C20_ex_oracle_http :
   spec i (SL [SL [SZ 400; SZ 2; SB []; SZ 0; SZ 126]]) = false /\
   spec i (SL [SL [SZ 405; SZ 2; SB []; SZ 46; SZ 0]]) = true.
 Proof. vm_compute. repeat split; reflexivity. Qed.
+
+(* ---- one level, many holders: non-vacuity ---- *)
+Definition ex_debug : bytes := [x64; x65; x62; x75; x67].
+Definition ex_bogus : bytes := [x62; x6f; x67; x75; x73].
+(* variable at info; copy into a logger, a mux, a Config; "debug" decoded into the variable; "bogus"
+   rejected; PUT level=ERROR through the mux; SetLevel(warn) through the Config; an unrelated
+   AtomicLevel at fatal in a variable:  the levels seen through the six holders at the end *)
+Example C20_ex_shared :
+  let ops := [SCopy 0 1; SCopy 0 2; SCopy 0 3; SText 0 ex_debug; SText 0 ex_bogus;
+              SReq 2 (ex_form [x45; x52; x52; x4f; x52]); SFresh 5 0; SSet 3 1; SText 4 ex_debug] in
+  let w := sh_final G (init_world 0 0) ops in
+  wf_world (init_world 0 0) /\
+  map (level_seen w) [0; 1; 2; 3; 4; 5]%nat = [Some 1; Some 1; Some 1; Some 1; Some (-1); None] /\
+  map (level_seen (sh_final G (init_world 0 0) (firstn 4 ops))) [0; 1; 2; 3]%nat = [Some (-1); Some (-1); Some (-1); Some (-1)] /\
+  last_accepted (init_world 0 0) ops 0 0 = 1 /\
+  spec (SL [SZ 3; SZ 0; SZ 0; SL [SL [SZ 0; SZ 0; SZ 1]; SL [SZ 2; SZ 0; SB ex_debug; SZ 0]]])
+       (SL [SL [SL []; SL [SZ 0; SL [SZ 126; SZ 0]]]; SL [SZ 1; SL [SZ (-1); SL [SZ 127; SZ (-1)]]]]) = true.
+Proof. split; [exact (init_world_wf 0 0)|]. vm_compute. repeat split; reflexivity. Qed.
+
+(* the sharing theorems are about something: with an UnmarshalText that assigns a freshly parsed
+   AtomicLevel to its receiver, the variable reads debug while the logger built from it earlier still
+   stands at info and the two no longer share a cell ... *)
+Example C20_ex_repoint_splits :
+  let w := fold_left (fun w o => fst (sh_step_repoint G w o)) repoint_ops (init_world 0 0) in
+  level_seen w 0 = Some (-1) /\ level_seen w 1 = Some 0 /\ handle_of w 0 <> handle_of w 1 /\
+  level_seen (sh_final G (init_world 0 0) repoint_ops) 0 = Some (-1) /\
+  level_seen (sh_final G (init_world 0 0) repoint_ops) 1 = Some (-1).
+Proof. exact repoint_splits. Qed.
+
+(* ... and the oracle rejects that observation (logger still at info: mask 126, level 0) *)
+Example C20_ex_oracle_shared :
+  spec (SL [SZ 3; SZ 0; SZ 0; SL [SL [SZ 0; SZ 0; SZ 1]; SL [SZ 2; SZ 0; SB ex_debug; SZ 0]]])
+       (SL [SL [SL []; SL [SZ 0; SL [SZ 126; SZ 0]]]; SL [SZ 1; SL [SZ (-1); SL [SZ 126; SZ 0]]]]) = false.
+Proof. vm_compute. reflexivity. Qed.
